@@ -4,10 +4,14 @@ set -u
 PATCH="$(readlink -f "$1")"; shift
 cd /repo || exit 2
 if ! git diff --quiet; then echo "repo not clean"; exit 2; fi
-if ! git apply --check "$PATCH" 2>/dev/null; then
-  if ! git apply -3 --check "$PATCH" 2>/dev/null; then echo "PATCH-DOES-NOT-APPLY $PATCH"; exit 3; fi
+if git apply --check "$PATCH" 2>/dev/null; then
+  git apply "$PATCH"
+elif git apply -3 "$PATCH" 2>/dev/null && ! git status --short | grep -q '^U'; then
+  git reset -q
+else
+  git reset -q; git checkout -- .
+  echo "PATCH-DOES-NOT-APPLY $PATCH"; exit 3
 fi
-git apply "$PATCH" || git apply -3 "$PATCH"
 for id in "$@"; do
   out=$(cd /verif && VERIF_TIER=quick ./check "$id" 2>&1)
   rc=$?
